@@ -135,3 +135,708 @@ Section AssocLemmas.
       + apply IH; tauto.
   Qed.
 End AssocLemmas.
+
+(** ---------- mapping over values ---------- *)
+Definition mapv {A B} (f : A -> B) (l : list (name * A)) : list (name * B) :=
+  map (fun e => match e with (k, c) => (k, f c) end) l.
+
+Lemma lookup_mapv {A B} (f : A -> B) l k : lookup (mapv f l) k = option_map f (lookup l k).
+Proof.
+  induction l as [|[j w] r IH]; cbn [mapv map lookup option_map]; [reflexivity|].
+  destruct (k =? j); [reflexivity|exact IH].
+Qed.
+Lemma has_mapv {A B} (f : A -> B) l k : has (mapv f l) k = has l k.
+Proof. unfold has. rewrite lookup_mapv. destruct (lookup l k); reflexivity. Qed.
+Lemma keys_mapv {A B} (f : A -> B) l : keys (mapv f l) = keys l.
+Proof. unfold keys, mapv. rewrite map_map. apply map_ext. intros [j w]. reflexivity. Qed.
+Lemma mapv_upd {A B} (f : A -> B) k v l : mapv f (upd k v l) = upd k (f v) (mapv f l).
+Proof.
+  unfold upd. rewrite has_mapv. destruct (has l k).
+  - unfold mapv. rewrite !map_map. apply map_ext. intros [j w]. cbn [fst].
+    destruct (k =? j); reflexivity.
+  - unfold mapv. rewrite map_app. reflexivity.
+Qed.
+Lemma mapv_del {A B} (f : A -> B) k l : mapv f (del k l) = del k (mapv f l).
+Proof.
+  induction l as [|[j w] r IH]; cbn [del mapv map]; [reflexivity|].
+  destruct (k =? j); [exact IH|]. cbn [map]. f_equal. exact IH.
+Qed.
+Lemma mapv_mapv {A B C} (f : A -> B) (g : B -> C) l : mapv g (mapv f l) = mapv (fun x => g (f x)) l.
+Proof. unfold mapv. rewrite map_map. apply map_ext. intros [j w]. reflexivity. Qed.
+Lemma mapv_ext_Forall {A B} (f g : A -> B) l :
+  Forall (fun e => f (snd e) = g (snd e)) l -> mapv f l = mapv g l.
+Proof.
+  induction 1 as [|[j w] r H _ IH]; cbn [mapv map]; [reflexivity|].
+  cbn [snd] in H. rewrite H. f_equal. exact IH.
+Qed.
+
+(** ---------- overlay ---------- *)
+Lemma overlay_ext p c1 c2 :
+  (forall k, has p k = true -> lookup c1 k = lookup c2 k) -> overlay p c1 = overlay p c2.
+Proof.
+  intro H. unfold overlay. apply map_ext_in. intros [j w] Hin. unfold ov. cbn [fst snd].
+  rewrite H; [reflexivity|]. apply has_lookup, lookup_in_keys. unfold keys.
+  change j with (fst (j, w)). apply in_map. exact Hin.
+Qed.
+Lemma keys_overlay p c : keys (overlay p c) = keys p.
+Proof. unfold keys, overlay. rewrite map_map. apply map_ext. intros [j w]. reflexivity. Qed.
+Lemma lookup_overlay p c k :
+  lookup (overlay p c) k =
+  match lookup p k with
+  | None => None
+  | Some v => Some (match lookup c k with Some v' => v' | None => v end)
+  end.
+Proof.
+  induction p as [|[j w] r IH]; cbn [overlay map lookup ov fst snd]; [reflexivity|].
+  destruct (k =? j) eqn:E; [|exact IH]. apply Z.eqb_eq in E. subst. reflexivity.
+Qed.
+Lemma has_overlay p c k : has (overlay p c) k = has p k.
+Proof. unfold has. rewrite lookup_overlay. destruct (lookup p k); reflexivity. Qed.
+Lemma overlay_nil p : overlay p [] = p.
+Proof. unfold overlay. rewrite <- (map_id p) at 2. apply map_ext. intros [j w]. reflexivity. Qed.
+
+Lemma overlay_upd_cache p c k v : has p k = true -> overlay p (upd k v c) = upd k v (overlay p c).
+Proof.
+  intro H. unfold upd at 2. rewrite has_overlay, H. unfold overlay. rewrite map_map.
+  apply map_ext. intros [j w]. unfold ov. cbn [fst snd]. rewrite lookup_upd.
+  rewrite (Z.eqb_sym j k). destruct (k =? j); reflexivity.
+Qed.
+Lemma overlay_upd_pers_shadowed p c k v w :
+  lookup c k = Some w -> has p k = true -> overlay (upd k v p) c = overlay p c.
+Proof.
+  intros Hc H. unfold upd. rewrite H. unfold overlay. rewrite map_map.
+  apply map_ext. intros [j x]. cbn [fst]. destruct (k =? j) eqn:E; [|reflexivity].
+  apply Z.eqb_eq in E. subst j. unfold ov. cbn [fst snd]. rewrite Hc. reflexivity.
+Qed.
+Lemma overlay_upd_pers_fresh p c k v :
+  lookup c k = None -> overlay (upd k v p) c = upd k v (overlay p c).
+Proof.
+  intro Hc. unfold upd. rewrite has_overlay. destruct (has p k).
+  - unfold overlay. rewrite !map_map. apply map_ext. intros [j x]. cbn [fst].
+    unfold ov. cbn [fst snd]. destruct (k =? j) eqn:E; cbn [fst snd]; [|reflexivity].
+    apply Z.eqb_eq in E. subst j. rewrite Hc. reflexivity.
+  - unfold overlay. rewrite map_app. cbn [map]. unfold ov. cbn [fst snd]. rewrite Hc. reflexivity.
+Qed.
+Lemma overlay_del p c k : overlay (del k p) (del k c) = del k (overlay p c).
+Proof.
+  induction p as [|[j w] r IH]; [reflexivity|].
+  change (overlay ((j, w) :: r) c) with (ov c (j, w) :: overlay r c).
+  cbn [del]. unfold ov at 1. cbn [fst snd]. destruct (k =? j) eqn:E; [exact IH|].
+  change (overlay ((j, w) :: del k r) (del k c)) with (ov (del k c) (j, w) :: overlay (del k r) (del k c)).
+  unfold ov. cbn [fst snd]. rewrite lookup_del, Z.eqb_sym, E, IH. reflexivity.
+Qed.
+Lemma overlay_idem p c : overlay (overlay p c) c = overlay p c.
+Proof.
+  unfold overlay. rewrite map_map. apply map_ext. intros [j w]. unfold ov. cbn [fst snd].
+  destruct (lookup c j); reflexivity.
+Qed.
+
+(** ---------- induction over objects ---------- *)
+Section ObjInd.
+  Variable P : obj -> Prop.
+  Hypothesis HF : forall d m t, P (OFile d m t).
+  Hypothesis HD : forall p m t c, Forall (fun e => P (snd e)) c -> P (ODir p m t c).
+  Fixpoint obj_ind' (o : obj) : P o :=
+    match o with
+    | OFile d m t => HF d m t
+    | ODir p m t c =>
+        HD p m t c
+          ((fix go (l : list (name * obj)) : Forall (fun e => P (snd e)) l :=
+              match l with
+              | [] => Forall_nil _
+              | e :: r => Forall_cons e (obj_ind' (snd e)) (go r)
+              end) c)
+    end.
+End ObjInd.
+
+(** ---------- well-formed trees: names are unique in every directory ---------- *)
+Fixpoint wfn (n : node) : Prop :=
+  match n with
+  | NFile _ _ _ => True
+  | NDir e _ _ =>
+      NoDup (keys e) /\
+      (fix go (l : list (name * node)) : Prop :=
+         match l with [] => True | x :: r => wfn (snd x) /\ go r end) e
+  end.
+Lemma wfn_dir e m t : wfn (NDir e m t) <-> NoDup (keys e) /\ Forall (fun x => wfn (snd x)) e.
+Proof.
+  cbn [wfn]. apply and_iff_compat_l. induction e as [|x r IH].
+  - split; intros _; [constructor|exact I].
+  - rewrite IH. split.
+    + intros [H1 H2]. constructor; assumption.
+    + intro H. inversion H; subst. split; assumption.
+Qed.
+Lemma wfn_file d m t : wfn (NFile d m t).
+Proof. exact I. Qed.
+Opaque wfn.
+
+(** ---------- the invariant of the mechanism: unique linked names, well-formed
+    linked nodes, cached names are linked names — at every level ---------- *)
+Definition sub {A B} (c : list (name * A)) (p : list (name * B)) : Prop :=
+  forall k, has c k = true -> has p k = true.
+
+Fixpoint wf (o : obj) : Prop :=
+  match o with
+  | OFile _ _ _ => True
+  | ODir p _ _ c =>
+      NoDup (keys p) /\ Forall (fun x => wfn (snd x)) p /\ sub c p /\
+      (fix wfl (l : list (name * obj)) : Prop :=
+         match l with [] => True | e :: r => wf (snd e) /\ wfl r end) c
+  end.
+
+Lemma wf_dir p m t c :
+  wf (ODir p m t c) <->
+  NoDup (keys p) /\ Forall (fun x => wfn (snd x)) p /\ sub c p /\ Forall (fun e => wf (snd e)) c.
+Proof.
+  cbn [wf]. do 3 apply and_iff_compat_l. induction c as [|e r IH].
+  - split; intros _; [constructor|exact I].
+  - rewrite IH. split.
+    + intros [H1 H2]. constructor; assumption.
+    + intro H. inversion H; subst. split; assumption.
+Qed.
+Lemma wf_file d m t : wf (OFile d m t).
+Proof. exact I. Qed.
+Opaque wf.
+
+Lemma abs_dir p m t c : abs (ODir p m t c) = NDir (overlay p (mapv abs c)) m t.
+Proof. reflexivity. Qed.
+Lemma sync_dir p m t c :
+  sync (ODir p m t c) = ODir (overlay p (mapv persnode (mapv sync c))) m t (mapv sync c).
+Proof. reflexivity. Qed.
+
+Lemma Forall_lookup {A} (Q : A -> Prop) (l : list (name * A)) k v :
+  Forall (fun e => Q (snd e)) l -> lookup l k = Some v -> Q v.
+Proof.
+  induction 1 as [|[j w] r H _ IH]; cbn [lookup]; [discriminate|].
+  destruct (k =? j); [intro E; inversion E; subst; exact H|exact IH].
+Qed.
+Lemma Forall_upd {A} (Q : A -> Prop) (l : list (name * A)) k v :
+  Forall (fun e => Q (snd e)) l -> Q v -> Forall (fun e => Q (snd e)) (upd k v l).
+Proof.
+  intros H Hv. unfold upd. destruct (has l k).
+  - apply Forall_map. eapply Forall_impl; [|exact H]. intros [j w] Hw. cbn [fst].
+    destruct (k =? j); [exact Hv|exact Hw].
+  - apply Forall_app. split; [exact H|constructor; [exact Hv|constructor]].
+Qed.
+Lemma Forall_del {A} (Q : A -> Prop) (l : list (name * A)) k :
+  Forall (fun e => Q (snd e)) l -> Forall (fun e => Q (snd e)) (del k l).
+Proof.
+  induction 1 as [|[j w] r H _ IH]; cbn [del]; [constructor|].
+  destruct (k =? j); [exact IH|constructor; assumption].
+Qed.
+Lemma Forall_mapv {A B} (Q : B -> Prop) (f : A -> B) (l : list (name * A)) :
+  Forall (fun e => Q (f (snd e))) l -> Forall (fun e => Q (snd e)) (mapv f l).
+Proof.
+  induction 1 as [|[j w] r H _ IH]; cbn [mapv map]; constructor; assumption.
+Qed.
+Lemma Forall_overlay (Q : node -> Prop) p c :
+  Forall (fun e => Q (snd e)) p -> Forall (fun e => Q (snd e)) c ->
+  Forall (fun e => Q (snd e)) (overlay p c).
+Proof.
+  intros Hp Hc. unfold overlay. apply Forall_map. eapply Forall_impl; [|exact Hp].
+  intros [j w] Hw. unfold ov. cbn [fst snd] in *. destruct (lookup c j) eqn:E; [|exact Hw].
+  eapply Forall_lookup; [exact Hc|exact E].
+Qed.
+Lemma nodup_del {A} (l : list (name * A)) k : NoDup (keys l) -> NoDup (keys (del k l)).
+Proof.
+  induction l as [|[j w] r IH]; cbn [del keys map fst]; intro H; [constructor|].
+  inversion H as [|? ? Hn Hr]; subst. destruct (k =? j); [auto|].
+  cbn [keys map fst]. constructor; [|auto].
+  intro Hin. apply Hn. apply lookup_in_keys in Hin. rewrite lookup_del in Hin.
+  apply lookup_in_keys. destruct (j =? k); congruence.
+Qed.
+
+Lemma wf_persnode o : wf o -> wfn (persnode o).
+Proof.
+  destruct o as [d m t|p m t c]; cbn [persnode]; intro H; [apply wfn_file|].
+  apply wf_dir in H. apply wfn_dir. tauto.
+Qed.
+
+Lemma load_spec n : abs (load n) = n /\ (wfn n -> wf (load n)).
+Proof.
+  destruct n as [d m t|e m t]; cbn [load].
+  - split; [reflexivity|intros _; apply wf_file].
+  - split.
+    + rewrite abs_dir. cbn [mapv map]. rewrite overlay_nil. reflexivity.
+    + intro H. apply wfn_dir in H. apply wf_dir. repeat split; try tauto.
+      * intros k Hk; discriminate Hk.
+      * constructor.
+Qed.
+
+(** cacheSync: afterwards the UnixFS node of the object IS what the object shows *)
+Lemma sync_spec o : wf o -> abs (sync o) = abs o /\ persnode (sync o) = abs o /\ wf (sync o).
+Proof.
+  induction o as [d m t|p m t c IH] using obj_ind'; intro Hwf.
+  - split; [|split]; try reflexivity; try apply wf_file.
+  - apply wf_dir in Hwf. destruct Hwf as (Hnd & Hpn & Hsub & Hall).
+    assert (IH' : Forall (fun e => abs (sync (snd e)) = abs (snd e) /\
+                                   persnode (sync (snd e)) = abs (snd e) /\ wf (sync (snd e))) c).
+    { clear Hsub. induction IH as [|e r H _ IHr]; [constructor|].
+      inversion Hall; subst. constructor; auto. }
+    assert (E1 : mapv persnode (mapv sync c) = mapv abs c).
+    { rewrite mapv_mapv. apply mapv_ext_Forall. eapply Forall_impl; [|exact IH'].
+      intros a (H1 & H2 & H3). exact H2. }
+    assert (E2 : mapv abs (mapv sync c) = mapv abs c).
+    { rewrite mapv_mapv. apply mapv_ext_Forall. eapply Forall_impl; [|exact IH'].
+      intros a (H1 & H2 & H3). exact H1. }
+    assert (W : Forall (fun e => wfn (snd e)) (mapv abs c)).
+    { rewrite <- E1. rewrite mapv_mapv. apply Forall_mapv. eapply Forall_impl; [|exact IH'].
+      intros a (H1 & H2 & H3). apply wf_persnode. exact H3. }
+    rewrite sync_dir, E1. split; [|split].
+    + rewrite !abs_dir, E2, overlay_idem. reflexivity.
+    + rewrite abs_dir. reflexivity.
+    + apply wf_dir. repeat split.
+      * rewrite keys_overlay. exact Hnd.
+      * apply Forall_overlay; assumption.
+      * intros k Hk. rewrite has_mapv in Hk. rewrite has_overlay. auto.
+      * apply Forall_mapv. eapply Forall_impl; [|exact IH']. intros a (H1 & H2 & H3). exact H3.
+Qed.
+
+Lemma wf_abs o : wf o -> wfn (abs o).
+Proof.
+  intro H. destruct (sync_spec o H) as (_ & E & W). rewrite <- E. apply wf_persnode. exact W.
+Qed.
+
+(** ---------- local actions refine tree actions ---------- *)
+Definition grefines (g : obj -> lres) (tg : node -> node * out) : Prop :=
+  forall o, wf o ->
+    wf (fst3 (g o)) /\ abs (fst3 (g o)) = fst (tg (abs o)) /\ snd (fst (g o)) = snd (tg (abs o)).
+
+Lemma child_spec p m t c k :
+  wf (ODir p m t c) ->
+  match child (ODir p m t c) k with
+  | (o1, None) => o1 = ODir p m t c /\ lookup c k = None /\ lookup p k = None
+  | (o1, Some x) =>
+      exists c1, o1 = ODir p m t c1 /\ wf o1 /\
+                 overlay p (mapv abs c1) = overlay p (mapv abs c) /\
+                 lookup c1 k = Some x /\ wf x /\ has p k = true /\
+                 lookup (overlay p (mapv abs c)) k = Some (abs x)
+  end.
+Proof.
+  intro Hwf. pose proof Hwf as Hwf0. apply wf_dir in Hwf. destruct Hwf as (Hnd & Hpn & Hsub & Hall).
+  cbn [child]. destruct (lookup c k) as [x|] eqn:Ec.
+  - exists c. assert (Hp : has p k = true) by (apply Hsub, has_lookup; congruence).
+    split; [reflexivity|]. split; [exact Hwf0|]. split; [reflexivity|]. split; [exact Ec|].
+    split; [eapply Forall_lookup; [exact Hall|exact Ec]|]. split; [exact Hp|].
+    rewrite lookup_overlay, lookup_mapv, Ec. cbn [option_map].
+    apply has_lookup in Hp. destruct (lookup p k); [reflexivity|congruence].
+  - destruct (lookup p k) as [n|] eqn:Ep.
+    + destruct (load_spec n) as [Habs Hwfl].
+      assert (Hwn : wfn n) by (eapply Forall_lookup; [exact Hpn|exact Ep]).
+      assert (Hp : has p k = true) by (apply has_lookup; congruence).
+      assert (Hlk : lookup (overlay p (mapv abs c)) k = Some n).
+      { rewrite lookup_overlay, Ep, lookup_mapv, Ec. reflexivity. }
+      exists (upd k (load n) c). split; [reflexivity|]. split; [|split; [|split; [|split; [|split]]]].
+      * apply wf_dir. split; [exact Hnd|]. split; [exact Hpn|]. split.
+        -- intros k' Hk'. rewrite has_upd in Hk'. apply orb_true_iff in Hk'. destruct Hk' as [E|E].
+           ++ apply Z.eqb_eq in E. subst. exact Hp.
+           ++ auto.
+        -- apply Forall_upd; auto.
+      * rewrite mapv_upd, Habs, overlay_upd_cache by exact Hp.
+        apply upd_same; [rewrite keys_overlay; exact Hnd|exact Hlk].
+      * apply lookup_upd_eq.
+      * auto.
+      * exact Hp.
+      * rewrite Habs. exact Hlk.
+    + split; [reflexivity|]. split; first [reflexivity|assumption].
+Qed.
+
+Lemma wf_set_cache p m t c k x :
+  wf (ODir p m t c) -> has p k = true -> wf x -> wf (ODir p m t (upd k x c)).
+Proof.
+  intros H Hp Hx. apply wf_dir in H. destruct H as (Hnd & Hpn & Hsub & Hall).
+  apply wf_dir. split; [exact Hnd|]. split; [exact Hpn|]. split.
+  - intros k' Hk'. rewrite has_upd in Hk'. apply orb_true_iff in Hk'. destruct Hk' as [E|E].
+    + apply Z.eqb_eq in E. subst. exact Hp.
+    + auto.
+  - apply Forall_upd; assumption.
+Qed.
+Lemma wf_set_pers p m t c k v :
+  wf (ODir p m t c) -> wfn v -> wf (ODir (upd k v p) m t c).
+Proof.
+  intros H Hv. apply wf_dir in H. destruct H as (Hnd & Hpn & Hsub & Hall).
+  apply wf_dir. split; [apply nodup_upd; exact Hnd|]. split; [apply Forall_upd; assumption|].
+  split; [|exact Hall]. intros k' Hk'. rewrite has_upd. apply orb_true_iff. right. auto.
+Qed.
+
+(** one step of a path walk *)
+Lemma into_refines g tg k p m t c :
+  grefines g tg -> wf (ODir p m t c) ->
+  let r := into k g (ODir p m t c) in
+  let tr := match lookup (overlay p (mapv abs c)) k with
+            | None => (NDir (overlay p (mapv abs c)) m t, RErr ENotExist)
+            | Some n => (NDir (upd k (fst (tg n)) (overlay p (mapv abs c))) m t, snd (tg n))
+            end in
+  wf (fst3 r) /\ abs (fst3 r) = fst tr /\ snd (fst r) = snd tr.
+Proof.
+  intros Hg Hwf. cbv zeta. unfold into.
+  pose proof (child_spec p m t c k Hwf) as Hc.
+  destruct (child (ODir p m t c) k) as [o1 [x|]].
+  - destruct Hc as (c1 & -> & Hwf1 & Habs1 & Hl & Hwfx & Hhas & Hlk). rewrite Hlk.
+    specialize (Hg x Hwfx). destruct (g x) as [[x' y] pr]. cbn [fst3 fst snd] in Hg.
+    destruct Hg as (Hwfx' & Habsx' & Hy). cbn [set_cache].
+    assert (Hw2 : wf (ODir p m t (upd k x' c1))) by (apply wf_set_cache; assumption).
+    assert (Ha2 : overlay p (mapv abs (upd k x' c1)) = upd k (fst (tg (abs x))) (overlay p (mapv abs c))).
+    { rewrite mapv_upd, overlay_upd_cache, Habs1, Habsx' by exact Hhas. reflexivity. }
+    destruct pr; cbn [fst3 fst snd set_pers].
+    + split; [apply wf_set_pers; [exact Hw2|apply wf_persnode; exact Hwfx']|].
+      split; [|exact Hy]. rewrite abs_dir.
+      rewrite (overlay_upd_pers_shadowed p _ k (persnode x') (abs x')); [rewrite Ha2; reflexivity| |exact Hhas].
+      rewrite mapv_upd. apply lookup_upd_eq.
+    + split; [exact Hw2|]. split; [|exact Hy]. rewrite abs_dir, Ha2. reflexivity.
+  - destruct Hc as (-> & Hc1 & Hp1). cbn [fst3 fst snd].
+    rewrite lookup_overlay, Hp1. cbn [fst snd]. split; [exact Hwf|]. split; reflexivity.
+Qed.
+
+(** DirLookup + action + propagation refines "navigate and apply" on the tree *)
+Lemma nav_refines p g tg : grefines g tg -> grefines (nav p g) (tnav p tg).
+Proof.
+  intro Hg. induction p as [|k r IH]; [exact Hg|].
+  intros o Hwf. cbn [nav tnav]. destruct o as [d m t|pe m t c].
+  - cbn [fst3 fst snd abs]. split; [exact Hwf|]. split; reflexivity.
+  - rewrite abs_dir. pose proof (into_refines (nav r g) (tnav r tg) k pe m t c IH Hwf) as H.
+    cbv zeta in H. destruct (lookup (overlay pe (mapv abs c)) k) as [n|].
+    + destruct (tnav r tg n) as [n' y] eqn:E. cbn [fst snd] in H. exact H.
+    + exact H.
+Qed.
+
+(** ---------- the individual local actions ---------- *)
+Ltac gfile := intros o Hwf; destruct o as [d m t|pe m t c];
+  [cbn [fst3 fst snd abs]; try (split; [first [exact Hwf|apply wf_file]|split; reflexivity])|].
+
+Lemma gr_isdir : grefines g_isdir tg_isdir.
+Proof. gfile. rewrite abs_dir. cbn [g_isdir tg_isdir fst3 fst snd]. split; [exact Hwf|]. rewrite abs_dir. split; reflexivity. Qed.
+
+Lemma gr_fmod h s : grefines (g_fmod h s) (tg_fmod h).
+Proof.
+  gfile.
+  - cbn [g_fmod tg_fmod]. destruct (h d m t) as [[d' m'] t']. cbn [fst3 fst snd abs].
+    split; [apply wf_file|]. split; reflexivity.
+  - rewrite abs_dir. cbn [g_fmod tg_fmod fst3 fst snd]. split; [exact Hwf|]. rewrite abs_dir. split; reflexivity.
+Qed.
+
+Lemma gr_kind : grefines g_kind tg_kind.
+Proof.
+  gfile. rewrite abs_dir. cbn [g_kind tg_kind fst3 fst snd is_dirnode].
+  split; [exact Hwf|]. rewrite abs_dir. split; reflexivity.
+Qed.
+Lemma gr_list : grefines g_list tg_list.
+Proof.
+  gfile. rewrite abs_dir. cbn [g_list tg_list fst3 fst snd].
+  split; [exact Hwf|]. rewrite abs_dir, keys_overlay. split; reflexivity.
+Qed.
+Lemma gr_read : grefines g_read tg_read.
+Proof.
+  gfile. rewrite abs_dir. cbn [g_read tg_read fst3 fst snd].
+  split; [exact Hwf|]. rewrite abs_dir. split; reflexivity.
+Qed.
+
+Lemma set_mode_spec md o : wf o -> wf (set_mode md o) /\ abs (set_mode md o) = fst (tg_chmod md (abs o)).
+Proof.
+  destruct o as [d m t|pe m t c]; intro H; cbn [set_mode].
+  - split; [apply wf_file|reflexivity].
+  - split; [apply wf_dir; apply wf_dir in H; exact H|rewrite !abs_dir; reflexivity].
+Qed.
+Lemma set_mtime_spec ts o : wf o -> wf (set_mtime ts o) /\ abs (set_mtime ts o) = fst (tg_touch ts (abs o)).
+Proof.
+  destruct o as [d m t|pe m t c]; intro H; cbn [set_mtime].
+  - split; [apply wf_file|reflexivity].
+  - split; [apply wf_dir; apply wf_dir in H; exact H|rewrite !abs_dir; reflexivity].
+Qed.
+Lemma tg_chmod_ok md n : snd (tg_chmod md n) = ROk.
+Proof. destruct n; reflexivity. Qed.
+Lemma tg_touch_ok ts n : snd (tg_touch ts n) = ROk.
+Proof. destruct n; reflexivity. Qed.
+
+Lemma gr_chmod md : grefines (g_chmod md) (tg_chmod md).
+Proof.
+  intros o Hwf. destruct (sync_spec o Hwf) as (Ha & _ & Hw).
+  destruct (set_mode_spec md (sync o) Hw) as [Hw' Ha']. unfold g_chmod. cbn [fst3 fst snd].
+  split; [exact Hw'|]. rewrite Ha', Ha, tg_chmod_ok. split; reflexivity.
+Qed.
+Lemma gr_touch ts : grefines (g_touch ts) (tg_touch ts).
+Proof.
+  intros o Hwf. destruct (sync_spec o Hwf) as (Ha & _ & Hw).
+  destruct (set_mtime_spec ts (sync o) Hw) as [Hw' Ha']. unfold g_touch. cbn [fst3 fst snd].
+  split; [exact Hw'|]. rewrite Ha', Ha, tg_touch_ok. split; reflexivity.
+Qed.
+Lemma gr_getnode : grefines g_getnode tg_getnode.
+Proof.
+  intros o Hwf. destruct (sync_spec o Hwf) as (Ha & Hp & Hw). unfold g_getnode, tg_getnode.
+  cbn [fst3 fst snd]. rewrite Hp. split; [exact Hw|]. split; [exact Ha|reflexivity].
+Qed.
+
+Lemma clean_spec o : wf o -> persnode o = abs o ->
+  wf (clean o) /\ abs (clean o) = abs o /\ persnode (clean o) = abs o.
+Proof.
+  destruct o as [d m t|pe m t c]; cbn [clean]; intros Hwf Hp.
+  - split; [exact Hwf|]. split; reflexivity.
+  - split.
+    + apply wf_dir in Hwf. apply wf_dir. destruct Hwf as (H1 & H2 & _ & _).
+      split; [exact H1|]. split; [exact H2|]. split; [intros k Hk; discriminate Hk|constructor].
+    + cbn [persnode] in *. rewrite <- Hp. rewrite abs_dir. cbn [mapv map]. rewrite overlay_nil.
+      split; reflexivity.
+Qed.
+Lemma gr_flush : grefines g_flush tg_getnode.
+Proof.
+  intros o Hwf. destruct (sync_spec o Hwf) as (Ha & Hp & Hw).
+  destruct (clean_spec (sync o) Hw) as (Hw' & Ha' & Hp'); [congruence|].
+  unfold g_flush, tg_getnode. cbn [fst3 fst snd]. rewrite Hp', Ha', Ha.
+  split; [exact Hw'|]. split; reflexivity.
+Qed.
+Lemma gr_stat : grefines g_stat tg_stat.
+Proof.
+  intros o Hwf. destruct o as [d m t|pe m t c].
+  - cbn [g_stat tg_stat abs fst3 fst snd]. split; [exact Hwf|]. split; reflexivity.
+  - destruct (sync_spec _ Hwf) as (Ha & _ & Hw). cbn [g_stat fst3 fst snd].
+    split; [exact Hw|]. rewrite Ha, abs_dir. split; reflexivity.
+Qed.
+
+Lemma gr_addchild k v : wfn v -> grefines (g_addchild k v) (tg_addchild k v).
+Proof.
+  intro Hv. gfile. rewrite abs_dir. unfold g_addchild, tg_addchild.
+  pose proof (child_spec pe m t c k Hwf) as Hc.
+  destruct (child (ODir pe m t c) k) as [o1 [x|]].
+  - destruct Hc as (c1 & -> & Hwf1 & Habs1 & Hl & Hwfx & Hhas & Hlk).
+    rewrite has_overlay, Hhas. cbn [fst3 fst snd]. split; [exact Hwf1|].
+    rewrite abs_dir, Habs1. split; reflexivity.
+  - destruct Hc as (-> & Hc1 & Hp1). rewrite has_overlay.
+    replace (has pe k) with false by (symmetry; apply has_false; exact Hp1).
+    cbn [set_pers fst3 fst snd]. split; [apply wf_set_pers; assumption|].
+    rewrite abs_dir, overlay_upd_pers_fresh; [split; reflexivity|].
+    rewrite lookup_mapv, Hc1. reflexivity.
+Qed.
+
+Lemma gr_unlink k : grefines (g_unlink k) (tg_unlink k).
+Proof.
+  gfile. rewrite abs_dir. unfold g_unlink, tg_unlink. rewrite has_overlay.
+  pose proof Hwf as Hwf0. apply wf_dir in Hwf. destruct Hwf as (Hnd & Hpn & Hsub & Hall).
+  destruct (has pe k) eqn:Hh; cbn [fst3 fst snd].
+  - split.
+    + apply wf_dir. split; [apply nodup_del; exact Hnd|]. split; [apply Forall_del; exact Hpn|].
+      split; [|apply Forall_del; exact Hall]. intros k' Hk'. rewrite has_del in Hk'. rewrite has_del.
+      apply andb_true_iff in Hk'. apply andb_true_iff. split; [tauto|apply Hsub; tauto].
+    + rewrite abs_dir, mapv_del, overlay_del. split; reflexivity.
+  - split.
+    + apply wf_dir. split; [exact Hnd|]. split; [exact Hpn|]. split; [|apply Forall_del; exact Hall].
+      intros k' Hk'. rewrite has_del in Hk'. apply andb_true_iff in Hk'. apply Hsub; tauto.
+    + rewrite abs_dir, mapv_del. split; [|reflexivity]. f_equal. apply overlay_ext.
+      intros k' Hk'. rewrite lookup_del. destruct (k' =? k) eqn:E; [|reflexivity].
+      apply Z.eqb_eq in E. subst. congruence.
+Qed.
+
+(** ---------- Mkdir ---------- *)
+Lemma wfn_newdir : wfn newdir.
+Proof. apply wfn_dir. split; constructor. Qed.
+Lemma wfn_newfile : wfn newfile.
+Proof. apply wfn_file. Qed.
+
+Lemma ensure_spec p m t c k :
+  wf (ODir p m t c) -> lookup c k = None ->
+  wf (ensure k (ODir p m t c)) /\
+  overlay (upd k newdir p) (mapv abs (upd k (load newdir) c)) = upd k newdir (overlay p (mapv abs c)).
+Proof.
+  intros Hwf Hc. split.
+  - cbn [ensure]. apply wf_set_cache.
+    + apply wf_set_pers; [exact Hwf|apply wfn_newdir].
+    + rewrite has_upd, Z.eqb_refl. reflexivity.
+    + apply (proj2 (load_spec newdir)), wfn_newdir.
+  - rewrite mapv_upd. change (abs (load newdir)) with newdir.
+    rewrite overlay_upd_cache by (rewrite has_upd, Z.eqb_refl; reflexivity).
+    rewrite overlay_upd_pers_fresh by (rewrite lookup_mapv, Hc; reflexivity).
+    apply upd_upd.
+Qed.
+
+Lemma mkdir_refines p parents : grefines (m_mkdir p parents) (t_mkdir p parents).
+Proof.
+  induction p as [|k r IH]; intros o Hwf.
+  - cbn [m_mkdir t_mkdir fst3 fst snd]. split; [exact Hwf|]. split; reflexivity.
+  - cbn [m_mkdir t_mkdir]. destruct o as [d m t|pe m t c].
+    + cbn [abs fst3 fst snd]. split; [exact Hwf|]. split; reflexivity.
+    + rewrite abs_dir. pose proof (child_spec pe m t c k Hwf) as Hc.
+      destruct (child (ODir pe m t c) k) as [o1 [x|]].
+      * destruct Hc as (c1 & -> & Hwf1 & Habs1 & Hl & Hwfx & Hhas & Hlk). rewrite Hlk.
+        destruct r as [|j r'].
+        -- destruct x as [d' m' t'|p' m' t' c']; [cbn [abs]|rewrite abs_dir]; cbn [fst3 fst snd];
+             (split; [exact Hwf1|]); rewrite abs_dir, Habs1; split; reflexivity.
+        -- pose proof (into_refines _ _ k pe m t c1 IH Hwf1) as H. cbv zeta in H.
+           rewrite Habs1, Hlk in H.
+           destruct (t_mkdir (j :: r') parents (abs x)) as [n' y]. cbn [fst snd] in H. exact H.
+      * destruct Hc as (-> & Hc1 & Hp1).
+        rewrite lookup_overlay, Hp1.
+        destruct (ensure_spec pe m t c k Hwf Hc1) as [Hwe Hoe].
+        destruct r as [|j r'].
+        -- cbn [fst3 fst snd]. split; [exact Hwe|]. cbn [ensure]. rewrite abs_dir, Hoe. split; reflexivity.
+        -- destruct parents.
+           ++ cbn [ensure] in *.
+              pose proof (into_refines _ _ k _ m t _ IH Hwe) as H. cbv zeta in H.
+              rewrite Hoe, lookup_upd_eq, upd_upd in H.
+              destruct (t_mkdir (j :: r') true newdir) as [n' y]. cbn [fst snd] in H. exact H.
+           ++ cbn [fst3 fst snd]. split; [exact Hwf|]. rewrite abs_dir. split; reflexivity.
+Qed.
+
+(** ---------- Mv (with both defects repaired) ---------- *)
+Lemma res2_fst r : fst (res2 r) = fst3 r. Proof. reflexivity. Qed.
+Lemma res2_snd r : snd (res2 r) = snd (fst r). Proof. reflexivity. Qed.
+
+Lemma tnav_getnode_wfn p t nd : wfn t -> snd (tnav p tg_getnode t) = RNode nd -> wfn nd.
+Proof.
+  revert t. induction p as [|k r IH]; intros t Hw; cbn [tnav].
+  - unfold tg_getnode. cbn [snd]. intro E. inversion E; subst. exact Hw.
+  - destruct t as [d m mt|e m mt]; [discriminate|].
+    destruct (lookup e k) as [c|] eqn:El; [|discriminate].
+    apply wfn_dir in Hw. destruct Hw as [_ Hall].
+    destruct (tnav r tg_getnode c) as [c' x] eqn:E. cbn [snd]. intro Hx.
+    apply (IH c); [eapply Forall_lookup; [exact Hall|exact El]|rewrite E; exact Hx].
+Qed.
+
+Ltac nav_step p g tg lem o Hwf o' x' Hw' Et :=
+  let H := fresh "H" in
+  let b := fresh "b" in
+  let t' := fresh "t" in
+  let y' := fresh "y" in
+  let Ha := fresh "Ha" in
+  let Hx := fresh "Hx" in
+  pose proof (nav_refines p g tg lem o Hwf) as H;
+  destruct (nav p g o) as [[o' x'] b];
+  destruct (tnav p tg (abs o)) as [t' y'] eqn:Et;
+  cbn [fst3 fst snd] in H; destruct H as (Hw' & Ha & Hx);
+  subst t' y'.
+
+Lemma mv_refines src dst slash o : wf o ->
+  wf (fst (m_mv flags_off src dst slash o)) /\
+  abs (fst (m_mv flags_off src dst slash o)) = fst (t_mv src dst slash (abs o)) /\
+  snd (m_mv flags_off src dst slash o) = snd (t_mv src dst slash (abs o)).
+Proof.
+  intro Hwf. unfold m_mv, t_mv.
+  destruct (mv_target src dst slash) as [[[[sdir sname] ddir] dname]|];
+    [|cbn [fst snd]; split; [exact Hwf|split; reflexivity]].
+  nav_step ddir g_isdir tg_isdir gr_isdir o Hwf o1 x1 Hw1 Et1.
+  destruct (negb (is_ok x1)); [cbn [fst snd]; split; [exact Hw1|split; reflexivity]|].
+  nav_step sdir g_isdir tg_isdir gr_isdir o1 Hw1 o2 x2 Hw2 Et2.
+  destruct (negb (is_ok x2)); [cbn [fst snd]; split; [exact Hw2|split; reflexivity]|].
+  assert (Hnd : forall nd, snd (tnav (sdir ++ [sname]) tg_getnode (abs o2)) = RNode nd -> wfn nd).
+  { intros nd E. eapply tnav_getnode_wfn; [apply wf_abs; exact Hw2|exact E]. }
+  nav_step (sdir ++ [sname]) g_getnode tg_getnode gr_getnode o2 Hw2 o3 x3 Hw3 Et3.
+  try rewrite Et3 in Hnd. cbn [snd] in Hnd.
+  destruct x3 as [| | | | |nd]; try (cbn [fst snd]; split; [exact Hw3|split; reflexivity]).
+  nav_step (ddir ++ [dname]) g_kind tg_kind gr_kind o3 Hw3 o4 x4 Hw4 Et4.
+  set (kind := match x4 with RStat isd _ _ _ => Some isd | _ => None end).
+  destruct (match kind with Some true => (ddir ++ [dname], sname) | _ => (ddir, dname) end) as [fdir fname].
+  cbn [f_mv_self flags_off negb andb].
+  destruct (is_dirnode nd && prefixb (sdir ++ [sname]) fdir);
+    [cbn [fst snd]; split; [exact Hw4|split; reflexivity]|].
+  assert (H5 : wf (match kind with Some false => fst3 (nav ddir (g_unlink dname) o4) | _ => o4 end) /\
+               abs (match kind with Some false => fst3 (nav ddir (g_unlink dname) o4) | _ => o4 end) =
+               match kind with Some false => fst (tnav ddir (tg_unlink dname) (abs o4)) | _ => abs o4 end).
+  { destruct kind as [[|]|]; try (split; [exact Hw4|reflexivity]).
+    pose proof (nav_refines ddir _ _ (gr_unlink dname) o4 Hw4) as H. tauto. }
+  destruct H5 as [Hw5 Ha5]. rewrite <- Ha5.
+  set (o5 := match kind with Some false => fst3 (nav ddir (g_unlink dname) o4) | _ => o4 end) in *.
+  nav_step fdir (g_addchild fname nd) (tg_addchild fname nd) (gr_addchild fname nd (Hnd nd eq_refl)) o5 Hw5 o6 x6 Hw6 Et6.
+  destruct (negb (is_ok x6)); [cbn [fst snd]; split; [exact Hw6|split; reflexivity]|].
+  unfold same_dir. cbn [f_mv_name flags_off].
+  destruct (path_eqb sdir fdir && (sname =? fname)); [cbn [fst snd]; split; [exact Hw6|split; reflexivity]|].
+  pose proof (nav_refines sdir _ _ (gr_unlink sname) o6 Hw6) as H.
+  rewrite res2_fst, res2_snd. exact H.
+Qed.
+
+(** ---------- every operation, every history ---------- *)
+Lemma at_parent_refines p g tg o :
+  (forall k, grefines (g k) (tg k)) -> wf o ->
+  wf (fst (m_at_parent p g o)) /\
+  abs (fst (m_at_parent p g o)) = fst (t_at_parent p tg (abs o)) /\
+  snd (m_at_parent p g o) = snd (t_at_parent p tg (abs o)).
+Proof.
+  intros Hg Hwf. unfold m_at_parent, t_at_parent. destruct (split_last p) as [[d k]|].
+  - rewrite res2_fst, res2_snd. apply nav_refines; [apply Hg|exact Hwf].
+  - cbn [fst snd]. split; [exact Hwf|split; reflexivity].
+Qed.
+
+Lemma step_refines o a : wf o ->
+  wf (fst (m_step flags_off o a)) /\
+  abs (fst (m_step flags_off o a)) = fst (t_step (abs o) a) /\
+  snd (m_step flags_off o a) = snd (t_step (abs o) a).
+Proof.
+  intro Hwf. destruct a; cbn [m_step t_step];
+    try (rewrite res2_fst, res2_snd; apply nav_refines; [|exact Hwf]).
+  - (* Mkdir *)
+    pose proof (mkdir_refines p parents o Hwf) as H.
+    destruct (m_mkdir p parents o) as [[o1 x] b]. destruct (t_mkdir p parents (abs o)) as [t1 y].
+    cbn [fst3 fst snd] in H. destruct H as (Hw1 & Ha1 & Hx). subst t1 y.
+    destruct (flush && is_ok x).
+    + pose proof (nav_refines p _ _ gr_flush o1 Hw1) as H. cbn [fst snd]. tauto.
+    + cbn [fst snd]. split; [exact Hw1|split; reflexivity].
+  - apply at_parent_refines; [|exact Hwf]. intro k. apply gr_addchild, wfn_newfile.
+  - apply gr_fmod.
+  - apply gr_fmod.
+  - apply mv_refines. exact Hwf.
+  - apply at_parent_refines; [|exact Hwf]. intro k. apply gr_unlink.
+  - apply gr_chmod.
+  - apply gr_touch.
+  - apply gr_flush.
+  - apply gr_stat.
+  - apply gr_list.
+  - apply gr_read.
+Qed.
+
+Lemma run_refines ops : forall o, wf o ->
+  wf (fst (m_run flags_off o ops)) /\
+  abs (fst (m_run flags_off o ops)) = fst (t_run (abs o) ops) /\
+  snd (m_run flags_off o ops) = snd (t_run (abs o) ops).
+Proof.
+  induction ops as [|a r IH]; intros o Hwf; cbn [m_run t_run].
+  - cbn [fst snd]. split; [exact Hwf|split; reflexivity].
+  - destruct (step_refines o a Hwf) as (Hw1 & Ha1 & Hx1).
+    destruct (m_step flags_off o a) as [o1 x]. destruct (t_step (abs o) a) as [t1 y].
+    cbn [fst snd] in *. subst t1 y. specialize (IH o1 Hw1).
+    destruct (m_run flags_off o1 r) as [o2 xs]. destruct (t_run (abs o1) r) as [t2 ys].
+    cbn [fst snd] in *. destruct IH as (Hw2 & Ha2 & Hxs). subst. split; [exact Hw2|split; reflexivity].
+Qed.
+
+Lemma wf_root : wf (load newdir).
+Proof. apply (proj2 (load_spec newdir)), wfn_newdir. Qed.
+
+(** C19_refines_tree *)
+Theorem refines_tree ops :
+  snd (m_run flags_off (load newdir) ops) = snd (t_run newdir ops) /\
+  abs (fst (m_run flags_off (load newdir) ops)) = fst (t_run newdir ops).
+Proof.
+  destruct (run_refines ops (load newdir) wf_root) as (_ & Ha & Hx).
+  change (abs (load newdir)) with newdir in *. split; assumption.
+Qed.
+
+(** and from any reachable mechanism state *)
+Theorem refines_tree_from o ops : wf o ->
+  snd (m_run flags_off o ops) = snd (t_run (abs o) ops) /\
+  abs (fst (m_run flags_off o ops)) = fst (t_run (abs o) ops) /\
+  wf (fst (m_run flags_off o ops)).
+Proof. intro H. destruct (run_refines ops o H) as (Hw & Ha & Hx). repeat split; assumption. Qed.
+
+(** C19_flush_persists: after flushing the root, the UnixFS DAG of the root IS the
+    tree MFS shows — at every level (nodes are values: the whole DAG) — the
+    flush returns that DAG and does not change what is shown. *)
+Theorem flush_persists o : wf o ->
+  let r := m_step flags_off o (OFlush []) in
+  snd r = RNode (abs o) /\ persnode (fst r) = abs o /\ abs (fst r) = abs o.
+Proof.
+  intro Hwf. cbn [m_step nav]. rewrite res2_fst, res2_snd. unfold g_flush. cbn [fst3 fst snd].
+  destruct (sync_spec o Hwf) as (Ha & Hp & Hw).
+  destruct (clean_spec (sync o) Hw) as (Hw' & Ha' & Hp'); [congruence|].
+  rewrite Hp', Ha', Ha. repeat split.
+Qed.
+
+(** flushing any path returns the subtree the specification has there *)
+Lemma tnav_getnode_tget p t n : tget p t = Some n -> snd (tnav p tg_getnode t) = RNode n.
+Proof.
+  revert t. induction p as [|k r IH]; intros t; cbn [tget tnav].
+  - intro E. inversion E. reflexivity.
+  - destruct t as [d m mt|e m mt]; [discriminate|]. destruct (lookup e k) as [c|]; [|discriminate].
+    intro E. specialize (IH c E). destruct (tnav r tg_getnode c). exact IH.
+Qed.
+Theorem flush_returns_subtree o p n : wf o -> tget p (abs o) = Some n ->
+  snd (m_step flags_off o (OFlush p)) = RNode n.
+Proof.
+  intros Hwf E. destruct (step_refines o (OFlush p) Hwf) as (_ & _ & Hx). rewrite Hx.
+  cbn [t_step]. apply tnav_getnode_tget. exact E.
+Qed.
